@@ -7,6 +7,7 @@ import (
 	"sort"
 	"sync"
 	"sync/atomic"
+	"time"
 
 	"github.com/named-data/ndnd/fw/table"
 	enc "github.com/named-data/ndnd/std/encoding"
@@ -25,6 +26,12 @@ func c16Quiescent(c *h.Ctx, id string, r *rand.Rand) {
 	algo := []string{"nametree", "hashtable"}[r.Intn(2)]
 	m := 1 + r.Intn(3)
 	c16Setup(algo, m)
+	// in half of the histories a readvertiser is installed that takes a while per announcement /
+	// withdrawal (the real one sends commands to the routing daemon from inside the RIB update)
+	slowReadv := r.Intn(2) == 0
+	if slowReadv {
+		table.AddReadvertiser(c16SlowReadvertiser{})
+	}
 	procs := []int{2, 4, 16}[r.Intn(3)]
 	prev := runtime.GOMAXPROCS(procs)
 	defer runtime.GOMAXPROCS(prev)
@@ -52,13 +59,17 @@ func c16Quiescent(c *h.Ctx, id string, r *rand.Rand) {
 			for k := 0; k < nOps; k++ {
 				n := names[rr.Intn(len(names))]
 				f := uint64(1 + rr.Intn(3))
+				origin := uint64(0)
+				if slowReadv {
+					origin = table.RouteOriginClient // the origin readvertisers act on
+				}
 				switch rr.Intn(5) {
 				case 0:
-					table.Rib.RemoveRouteEnc(n.Clone(), f, 0)
+					table.Rib.RemoveRouteEnc(n.Clone(), f, origin)
 				case 1:
 					table.Rib.CleanUpFace(f)
 				default:
-					table.Rib.AddEncRoute(n.Clone(), &table.Route{FaceID: f, Origin: 0, Cost: uint64(rr.Intn(4)), Flags: uint64(rr.Intn(4))})
+					table.Rib.AddEncRoute(n.Clone(), &table.Route{FaceID: f, Origin: origin, Cost: uint64(rr.Intn(4)), Flags: uint64(rr.Intn(4))})
 				}
 				if rr.Intn(6) == 0 {
 					runtime.Gosched()
@@ -116,7 +127,7 @@ func c16Quiescent(c *h.Ctx, id string, r *rand.Rand) {
 		}
 	}()
 	wg.Wait()
-	det := map[string]any{"fib": algo, "m": m, "rib_writers": nW, "ops_per_goroutine": nOps, "gomaxprocs": procs}
+	det := map[string]any{"fib": algo, "m": m, "rib_writers": nW, "ops_per_goroutine": nOps, "gomaxprocs": procs, "slow_readvertiser": slowReadv}
 	bad := false
 	panicked.Range(func(k, v any) bool {
 		c.Violation("C16:panic:quiescent:"+algo, id, fmt.Sprintf("the %s goroutine panicked: %v", k, v), det)
@@ -131,34 +142,54 @@ func c16Quiescent(c *h.Ctx, id string, r *rand.Rand) {
 		return
 	}
 	// ---- at quiescence
-	ref := newRefRib()
-	var ribDesc []string
-	for _, e := range table.Rib.GetAllEntries() {
-		for _, rt := range e.GetRoutes() {
-			ref.add(e.Name, refRoute{face: rt.FaceID, origin: rt.Origin, cost: rt.Cost, flags: rt.Flags})
-			ribDesc = append(ribDesc, fmt.Sprintf("%s face=%d cost=%d flags=%d", e.Name, rt.FaceID, rt.Cost, rt.Flags))
+	fibIsFlattening := func(when string) bool {
+		ref := newRefRib()
+		var ribDesc []string
+		for _, e := range table.Rib.GetAllEntries() {
+			for _, rt := range e.GetRoutes() {
+				ref.add(e.Name, refRoute{face: rt.FaceID, origin: rt.Origin, cost: rt.Cost, flags: rt.Flags})
+				ribDesc = append(ribDesc, fmt.Sprintf("%s face=%d cost=%d flags=%d", e.Name, rt.FaceID, rt.Cost, rt.Flags))
+			}
 		}
+		w := map[string]string{}
+		for k, hm := range ref.flatten() {
+			if len(hm) > 0 {
+				w[ref.names[k].String()] = hopsStr(hm)
+			}
+		}
+		g := map[string]string{}
+		for _, e := range table.FibStrategyTable.GetAllFIBEntries() {
+			hm, _ := copyHops(e.GetNextHops())
+			if len(hm) > 0 {
+				g[e.Name().String()] = hopsStr(hm)
+			}
+		}
+		sort.Strings(ribDesc)
+		det["rib_at_quiescence"] = ribDesc
+		c.Count("quiescent_checks", 1)
+		if !sameStrMap(g, w) {
+			det["fib"], det["expected"] = g, w
+			c.Violation("C16:fib-not-flattening-of-rib-at-quiescence:"+algo, id, when+", the FIB entries differ from the flattening of the routes the RIB holds", det)
+			return false
+		}
+		return true
+	}
+	if !fibIsFlattening("after route updates, strategy set/unset commands and lookups overlapped") {
+		return
 	}
 	want := map[string]string{}
-	for k, hm := range ref.flatten() {
-		if len(hm) > 0 {
-			want[ref.names[k].String()] = hopsStr(hm)
+	{
+		ref := newRefRib()
+		for _, e := range table.Rib.GetAllEntries() {
+			for _, rt := range e.GetRoutes() {
+				ref.add(e.Name, refRoute{face: rt.FaceID, origin: rt.Origin, cost: rt.Cost, flags: rt.Flags})
+			}
 		}
-	}
-	got := map[string]string{}
-	for _, e := range table.FibStrategyTable.GetAllFIBEntries() {
-		hm, _ := copyHops(e.GetNextHops())
-		if len(hm) > 0 {
-			got[e.Name().String()] = hopsStr(hm)
+		for k, hm := range ref.flatten() {
+			if len(hm) > 0 {
+				want[ref.names[k].String()] = hopsStr(hm)
+			}
 		}
-	}
-	sort.Strings(ribDesc)
-	det["rib_at_quiescence"] = ribDesc
-	c.Count("quiescent_checks", 1)
-	if !sameStrMap(got, want) {
-		det["fib"], det["expected"] = got, want
-		c.Violation("C16:fib-not-flattening-of-rib-at-quiescence:"+algo, id, "after route updates, strategy set/unset commands and lookups overlapped, the FIB entries differ from the flattening of the routes the RIB holds", det)
-		return
 	}
 	// lookups see the same thing
 	for _, n := range names {
@@ -187,5 +218,50 @@ func c16Quiescent(c *h.Ctx, id string, r *rand.Rand) {
 		c.Violation("C16:strategies-wrong-at-quiescence:"+algo, id, "the strategy table does not hold exactly the strategies of the last set/unset command per prefix", det)
 		return
 	}
+	// ---- face teardown against a prefix that is withdrawn and registered again: a face with routes on
+	// the other prefixes goes away (its clean-up walks the RIB, slowed by the readvertiser) while
+	// management unregisters the only route of one prefix and registers it again
+	if slowReadv {
+		for round := 0; round < 6; round++ {
+			// the prefix is a leaf of the RIB tree in half of the rounds (its entry goes away with its
+			// last route and is created anew by the registration)
+			xi := []int{len(names) - 1, len(names) - 2, 0}[r.Intn(3)]
+			x := names[xi]
+			others := append(append([]enc.Name{}, names[:xi]...), names[xi+1:]...)
+			for _, f := range []uint64{2, 3, 9} {
+				table.Rib.CleanUpFace(f)
+			}
+			table.Rib.AddEncRoute(x.Clone(), &table.Route{FaceID: 1, Origin: table.RouteOriginClient, Cost: 1, Flags: 1})
+			for _, n := range others {
+				table.Rib.AddEncRoute(n.Clone(), &table.Route{FaceID: 9, Origin: table.RouteOriginClient, Cost: 2, Flags: 0})
+			}
+			delay := time.Duration(r.Intn(1500)) * time.Microsecond
+			var w2 sync.WaitGroup
+			w2.Add(2)
+			go func() { defer w2.Done(); defer guard("teardown"); table.Rib.CleanUpFace(9) }()
+			go func() {
+				defer w2.Done()
+				defer guard("re-register")
+				time.Sleep(delay)
+				table.Rib.RemoveRouteEnc(x.Clone(), 1, table.RouteOriginClient)
+				table.Rib.AddEncRoute(x.Clone(), &table.Route{FaceID: 1, Origin: table.RouteOriginClient, Cost: 1, Flags: 1})
+			}()
+			w2.Wait()
+			c.Count("teardown_vs_reregister_rounds", 1)
+			if !fibIsFlattening(fmt.Sprintf("after the teardown of face 9 overlapped an unregister + register of %s (round %d)", x, round)) {
+				return
+			}
+		}
+	}
 	c.Distinct(fmt.Sprintf("quiescent|%s|writers=%d|procs=%d", algo, nW, procs))
+}
+
+// c16SlowReadvertiser stands for a readvertiser that does I/O per call.
+type c16SlowReadvertiser struct{}
+
+func (c16SlowReadvertiser) Announce(name enc.Name, route *table.Route) {
+	time.Sleep(150 * time.Microsecond)
+}
+func (c16SlowReadvertiser) Withdraw(name enc.Name, route *table.Route) {
+	time.Sleep(400 * time.Microsecond)
 }
